@@ -72,7 +72,10 @@ class ClassContract:
     """
 
     def __init__(self, name, props, file, cls, fields, spec, spec_fields, inv, methods, requires=None, witness=None,
-                 notes="", imports=None, loops=None, also=(), shared=None, runner=None):
+                 notes="", imports=None, loops=None, also=(), shared=None, runner=None, init=None):
+        #: constructor contract: dict(args={name: kind}, spec={spec field: python literal | "arg:<name>"}) - the real __init__ called with
+        #: arbitrary arguments establishes the coupling invariant with THAT initial spec state, and calls nothing
+        self.init = init
         self.spec_fields = spec_fields
         self.shared = shared or {}
         self.runner = runner
